@@ -34,7 +34,7 @@ ASSUMPTIONS = [
 
 
 def floors(tier):
-    return {"removals-judged": 150, "C05.file-node": 150, "C05.lookup": 150, "C05.survivor-changed": 150, "victims-in-several-pgs": 5, "refused-removals": 15, "drill-removals": 20, "via:workspace": 50, "via:parent": 50}
+    return {"removals-judged": 150, "C05.file-node": 150, "C05.lookup": 150, "C05.survivor-changed": 150, "victims-in-several-pgs": 5, "refused-removals": 15, "drill-removals": 20, "via:workspace": 50, "via:parent": 50, "mixed-association-groups": 30}
 
 
 def gen_cases(tier, seed):
@@ -43,6 +43,13 @@ def gen_cases(tier, seed):
     for i in range(12 if tier == "quick" else 60):
         cases.append({"kind": "history", "profile": "pg", "gc": ["default", "seeded"][i % 2], "refs": ["strong", "refetch", "drop"][i % 3], "n_ops": 8,
                       "script": [["mk_object", None], ["add_data", None], ["add_data", None], ["pg_add", None], ["pg_add_second", None], ["pg_add_second", None], ["remove", ["data"]], ["copy", ["object"]], ["remove", ["data"]], ["reopen", None], ["remove", ["object"]]]})
+    k = 0
+    for cls in ["Curve", "Surface", "Grid2D", "Points", "Octree"]:
+        for how in ["create_property_group", "find_or_create", "by-name-then-other-association", "association-kwarg"]:
+            for via in ["workspace", "parent"]:
+                for last in [False, True]:
+                    cases.append({"kind": "mixed-pg", "cls": cls, "how": how, "via": via, "last": last, "stored": k % 2 == 0})
+                    k += 1
     for i in range(n):
         if i % 6 == 5:
             cases.append({"kind": "drill", "n_ops": 8 if tier == "quick" else 16, "version": [2.0, 2.1][(i // 6) % 2]})
@@ -201,6 +208,8 @@ def run_case(case, rec):
     rng = random.Random(case["seed"])
     if case["kind"] == "drill":
         return run_drill(case, rec, rng)
+    if case["kind"] == "mixed-pg":
+        return run_mixed_pg(case, rec, rng)
     judge = RemovalJudge()
     mon = C05Monitor()
     eng = hist.Engine(rec, rng, PROP, weights=PROFILES[case["profile"]], monitors=[judge, mon], gc_plan=case["gc"], ref_policy=case["refs"], n_ops=case["n_ops"], script=[(k, tuple(f) if f else None) for k, f in case.get("script", [])], classes=["Points", "Curve", "Surface", "Grid2D", "BlockModel"] if case.get("script") else None)
@@ -209,6 +218,123 @@ def run_case(case, rec):
     rec.shape = [case["profile"], [(o["op"], o.get("cls", ""), o.get("via", "")) for o in eng.log]]
     rec.sample = {"profile": case["profile"], "history": [short({k: v for k, v in o.items() if k != "removed"}, 160) for o in eng.log[:10]]}
     gc.collect()
+
+
+# ------------------------------------------------------------------------------------------
+# data removed from property groups whose association differs from the data's own
+# ------------------------------------------------------------------------------------------
+def run_mixed_pg(case, rec, rng):
+    """Deterministic scenes: a group created explicitly (default association) or by name receives data of another association
+    (the library accepts any child data into a group); one member is removed through the workspace or the parent."""
+    from geoh5py.workspace import Workspace
+
+    from .. import gen
+
+    d = tempfile.mkdtemp(prefix="gvm_")
+    path = os.path.join(d, "w.geoh5")
+    cls, how, via = case["cls"], case["how"], case["via"]
+    where = f"mixed-pg:{via}"
+    try:
+        ws = Workspace.create(path)
+        o = gen.build_object(ws, cls, rng=rng, name="subject", base=3)
+        assocs = [a for a in gen.associations_for(o) if a != "OBJECT"]
+        made = {}
+        for a in assocs:
+            spec, _ = gen.data_spec(o, "float", a, rng, tag=4)
+            made[a] = [o.add_data({f"{a}_0": spec}), o.add_data({f"{a}_1": dict(spec)})]
+        text = o.add_data({"note": {"values": "text", "association": "OBJECT"}})
+        other = [a for a in assocs if a != "VERTEX"] or assocs
+        victim_assoc = other[0]
+        if how == "create_property_group":
+            pg = o.create_property_group(name="g")  # default association
+            members = [made[victim_assoc][0]] + ([] if case["last"] else [made[assocs[0]][1], text])
+            o.add_data_to_group(members, pg)
+        elif how == "find_or_create":
+            pg = o.find_or_create_property_group(name="g")
+            members = [made[victim_assoc][0]] + ([] if case["last"] else [made[victim_assoc][1]])
+            pg.add_properties(members)
+        elif how == "association-kwarg":
+            pg = o.find_or_create_property_group(name="g", association=assocs[0])
+            members = [made[victim_assoc][0], text][: 1 if case["last"] else 2]
+            o.add_data_to_group(members, pg)
+        else:
+            first = made[assocs[0]][0]
+            o.add_data_to_group([first], "g")
+            pg = [p for p in o.property_groups if p.name == "g"][0]
+            members = [made[victim_assoc][1], text]
+            o.add_data_to_group(members, pg)
+            if case["last"]:
+                o.remove_data_from_groups([first, text])
+                members = [made[victim_assoc][1]]
+        victim = members[0]
+        vuid = str(victim.uid)
+        rec.see("mixed-association-groups" if str(victim.association) != str(pg.association) else "same-association-groups")
+        del made, members, text, pg
+        if case["stored"]:
+            del victim, o
+            ws.close()
+            ws = Workspace(path, mode="r+")
+            o = ws.get_entity("subject")[0]
+            victim = ws.get_entity(uuid.UUID(vuid))[0]
+        rec.see("removals-judged")
+        rec.see("via:" + via)
+        try:
+            if via == "workspace":
+                ws.remove_entity(victim)
+            else:
+                o.remove_children([victim])
+        except Exception as exc:  # noqa: BLE001
+            from ..core import exc_origin
+
+            if not exc_origin(exc)[0]:
+                raise
+            rec.fail("C05.followup-raises", op=where, cls=cls, attr=type(exc).__name__, detail=f"removing grouped data raised {type(exc).__name__}: {exc}")
+            return
+        del victim
+        gc.collect()
+        _ = [e.uid for e in ws.data]  # reading a listing lets the workspace sweep dead referents (parent-route removals are lazy)
+        gc.collect()
+        pgs = {p.name: [str(x) for x in (p.properties or [])] for p in (o.property_groups or [])}
+        bad = [n for n, m in pgs.items() if vuid in m]
+        rec.check("C05.pg-mentions-removed", not bad, op=where, cls=cls, attr="live", detail=f"property group {bad} still lists the removed data ({how}, group association differs from the data's)")
+        if case["last"]:
+            rec.check("C05.pg-mentions-removed", "g" not in pgs, op=where, cls=cls, attr="emptied-group-kept", detail=f"group 'g' lost its last member but is still on the object: {pgs}")
+        rec.check("C05.lookup", ws.get_entity(uuid.UUID(vuid))[0] is None, op=where, cls=cls, attr="by-uid", detail="removed grouped data still returned by get_entity")
+        try:
+            cp = o.copy(name="copy of subject")
+            got = {p.name: len(p.properties or []) for p in (cp.property_groups or [])}
+            rec.check("C05.followup-copy", got == {n: len(m) for n, m in pgs.items()}, op=where, cls=cls, attr="", detail=f"copy after the removal has groups {got}, source has {pgs}")
+        except Exception as exc:  # noqa: BLE001
+            rec.fail("C05.followup-raises", op=where, cls=cls, attr=type(exc).__name__, detail=f"copy of the surviving object raised {type(exc).__name__}: {exc}")
+        del o
+        ws.close()
+        raw = snap.raw_snapshot(path)
+        for npath, r in raw["nodes"].items():
+            for pgname, at in (r.get("pgs") or {}).items():
+                props = at.get("Properties")
+                plist = props.get("data") if isinstance(props, dict) else ([props] if isinstance(props, str) else [])
+                plist = [plist] if isinstance(plist, str) else (plist or [])
+                hit = [x for x in plist if isinstance(x, str) and vuid in x]
+                rec.check("C05.pg-mentions-removed", not hit, op=where, cls="file", attr="", detail=f"{npath} property group {pgname} still lists the removed data in the file")
+        rec.check("C05.file-node", f"Data/{{{vuid}}}" not in raw["nodes"], op=where, cls="Data", attr="", detail="removed grouped data still in the Data container")
+        with Workspace(path, mode="r") as fresh:
+            o2 = fresh.get_entity("subject")[0]
+            for p in o2.property_groups or []:
+                try:
+                    vals = p.collect_values
+                    rec.check("C05.survivor-changed", len(vals) == len(p.properties), op=where, cls=cls, attr="collect_values", detail="group values incomplete after re-open")
+                except Exception as exc:  # noqa: BLE001
+                    rec.fail("C05.followup-raises", op=where, cls=cls, attr="collect_values:" + type(exc).__name__, detail=f"collect_values of a surviving group raised after re-open: {type(exc).__name__}: {exc}")
+        rec.nontrivial = True
+        rec.shape = ["mixed-pg", cls, how, via, case["last"], case["stored"]]
+        rec.sample = {"kind": "mixed-pg", "cls": cls, "how": how, "via": via}
+    finally:
+        try:
+            ws.close()
+        except Exception:  # noqa: BLE001
+            pass
+        shutil.rmtree(d, ignore_errors=True)
+        gc.collect()
 
 
 # ------------------------------------------------------------------------------------------
